@@ -14,6 +14,13 @@ var orderVals = []int{math.MinInt, math.MinInt + 1, -2147483648, -7, -1, 0, 0, 1
 
 // addSubstProcs adds 1-2 substituting post-processors with a wrap plan.
 func addSubstProcs(r rng, p *sdl.Program) {
+	// some holders come hand-wired: their determined single-valued points already hold the
+	// raw target object before the container starts
+	for _, i := range p.Instances {
+		if r.p(0.15) {
+			i.Prewired = true
+		}
+	}
 	nProc := r.n(1, 2)
 	slot := 0
 	for i := 0; i < nProc; i++ {
@@ -336,6 +343,11 @@ func genConf(r rng, field string) *sdl.Conf {
 		c.Menu, c.Keys, c.GoType = "value", []string{pick(r, cfgLeafStrs)}, "string"
 	case 9:
 		c.Menu, c.Default = "literal", fmt.Sprint(r.n(0, 9))
+	}
+	// keys that no source ever supplies: the default (if any) is used, otherwise the value
+	// is missing
+	if (c.Menu == "value" || c.Menu == "valueDef" || c.Menu == "prop") && c.GoType == "int" && r.p(0.3) {
+		c.Keys = []string{pick(r, []string{"gone.a", "gone.b"})}
 	}
 	c.Optional = r.p(0.25)
 	if c.GoType == "int" && r.p(0.5) {
